@@ -48,6 +48,18 @@ CLAIMED = {
    text="Machine-checked proof by induction over the step list: any finite sequence of applicable rewrites (run) from an expression refines it (same value wherever the start is defined); from an equation, every sequence incl. balanced moves ends in an equation with the same solution set (eq_refines is transitive). The model's trees are immutable, so earlier states are untouched by construction; for the implementation the `walks` suite applies every step to a clone_from_root copy, audits the heap, re-parses str(root), compares values with the START expression and verifies all earlier roots bit-identical at the end.",
    note="Trusted as C01; 'prints and re-parses' is checked by the suite's round-trip oracle (C04), not proved here.",
    design="4 C09", technique="Coq proof (induction over rewrite sequences on top of C01/C02) + differential correspondence on random walks"),
+ "C05": dict(
+   text="Machine-checked proof over the model of evaluate (numbers = unbounded integers | exact rationals standing for floats | non-finite marker; a float operation whose exact result is not representable is the explicit outcome EInexact, never a rounded value inside the model): eval is SOUND against the real-number meaning of the expression (whenever it returns a number and the expression is defined, the number IS the mathematical value) and COMPLETE (a defined expression evaluates to its value or to the explicit inexact outcome - no other outcome, in particular no wrong number and no exception); on integer-only expressions (add, sub, mul, non-negative integer power, factorial, negate over integer constants and integer-valued variables) eval returns exactly the unbounded integer evalZ computes - for any magnitude, no wrap; an unbound variable is ValueError and a successful evaluation proves every variable bound; division by a zero divisor gives the non-finite marker (NaN); an equation returns the common value or ValueError. PARTIAL where the property speaks of 'a few ulps': IEEE rounding is outside the model; the suite's oracle checks the implementation's float results against exact rational arithmetic with a per-operation relative tolerance of 4 ulps.",
+   note="Trusted: Coq kernel; the Reals axioms of the standard library for the soundness/completeness theorems (the integer-exactness, unbound-variable, division and equation theorems are closed under the global context); Sem.v as the meaning; the `eval` correspondence (implementation vs extracted model on int-only trees with huge operands and on mixed trees). numpy's power on floats is modelled as exact-or-inexact.",
+   design="4 C05", technique="Coq proof (evaluator sound+complete vs real-number semantics; integer exactness) + differential correspondence + exact-rational oracle"),
+ "C06": dict(
+   text="Machine-checked proof over the model of all nine rules: wherever can_apply is true, apply returns a result tree (ROk) or the explicit marker RInexact (a float fold whose exact value the model does not represent; the implementation returns the rounded float there) - it never reaches any of the model's raise sites (C06_apply_completes, C06_no_internal_error); can_apply is a Gallina function of (tree, position, rule), hence pure and deterministic by construction, and the implementation's purity/repeatability incl. answers after in-place edits is the suite's oracle; find_nodes returns exactly the pairs (in-order index, position) at which can_apply holds, the in-order enumeration lists every position exactly once, and find_node is the first of them.",
+   note="Trusted: Coq kernel (all theorems closed under the global context); the `rules` correspondence incl. FIND commands; heap snapshot oracle for purity on the implementation side.",
+   design="4 C06", technique="Coq proof (totality of apply under can_apply per rule; specification of node search) + differential correspondence + purity oracle"),
+ "C07": dict(
+   text="Machine-checked proof over the model: every non-balanced rewrite replaces exactly one subtree - the node's own or, for the associative rotation, its parent's - so every position that is neither inside nor above that subtree holds the same subtree before and after (C07_context_preserved), and every ancestor keeps its kind and payload (C07_ancestors_preserved); balanced move returns an equation. Arity-correctness, absence of sharing and a parentless root hold by construction for the model's inductive trees; for the IMPLEMENTATION's pointer structure (mutually consistent links, no node object twice, root without parent, clone source untouched) and for the variable set the check is the heap audit run on every rewrite of every suite (not a theorem): PARTIAL for those clauses.",
+   note="Trusted: Coq kernel (closed under the global context); correspondence of every rewrite result with the model; pyside.ser heap audit.",
+   design="4 C07", technique="Coq proof (locality of rewrites: replace lemmas) + differential correspondence + heap audit of parent/child links"),
 }
 WIP = "model and theorems not built yet in this round (work in progress; planned, see DESIGN.md section 4)"
 def main():
